@@ -232,8 +232,13 @@ def run(spec, ctx):
         rng = random.Random(f'C16/{spec["seed"]}/{spec["shard"]}/{i}')
         feats = [f for f in FEATS if rng.random() < 0.25]
         net = G.gen_net(rng, feats=feats, max_gates=rng.choice([8, 20, 40]))
+        large = i in (1, 2)
+        if large:
+            # beyond the usual sizes: hundreds of gates, wide or deep, > 64 / 256 patterns
+            net = G.gen_net(rng, feats=feats, n_gates=rng.choice([200, 400]), n_in=rng.choice([2, 12]), n_ff=rng.choice([0, 8, 30]))
+            ctx.count('large_cases')
         case = {'net': net, 'm': rng.choice([2, 4, 8]), 'c_reuse': rng.random() < 0.4, 'strip_forks': rng.random() < 0.4,
-                'sims': rng.choice([1, 5, 8, 9, 17, 33]), 'vseed': rng.randrange(1 << 30), 'ninj': rng.choice([2, 4, 8]), 'feats': feats}
+                'sims': rng.choice([1, 5, 8, 9, 17, 33]) if not large else rng.choice([65, 130, 261]), 'vseed': rng.randrange(1 << 30), 'ninj': rng.choice([2, 4, 8]), 'feats': feats}
         check_case(case, ctx)
 
 
